@@ -19,6 +19,8 @@ fn main() {
     let args = Args::parse();
     let rep = match (args.cmd.as_str(), &args.replay) {
         ("c15", None) => m1::run(&args),
+        ("c15e", None) => m5::run_c15e(&args),
+        ("c15e", Some(p)) => m5::replay(&args, "C15", p),
         ("c15", Some(p)) => m1::replay(&args, p),
         ("c14", None) => m3::run(&args),
         ("c14", Some(p)) => m3::replay(&args, p),
